@@ -60,6 +60,14 @@ claim("C02", "Every path of both frame builders: mask bit/key/masking iff client
       "byte 0 evaluated for every opcode = opcode|FIN|RSV1 only; RSV1 only via NextWriter's negotiated/enabled/data guard with the compressing writer installed, cleared per frame; continuation opcode + cursor reset; control frames unfragmented <= 125. Decoded payload equality is not decided.",
       NOTE, "path enumeration with canonical symbolic terms + finite-domain evaluation of header bytes (go/ssa)", "DESIGN.md §4 C02")
 
+claim("C12", "Guard coverage over every path of Upgrade to Hijack (six checks with exact constants and arguments; required reply status per failing check; no hijack after a refusal), accept-key provenance and digest construction (sha1(key||RFC GUID), base64 std; validated key is the one hashed), "
+      "subprotocol chosen from offer ∩ supported (known finding K1 for the responseHeader arm), announce <=> enable for permessage-deflate, response skeleton, and a taint rule over every byte appended to the 101 (found and fixed defect F4), plus OWS/exact-token necessary conditions of the token-list matcher. "
+      "The <= direction and the full header grammar are NOT decided.",
+      NOTE, "guard-dominance + taint (value provenance) analysis on enumerated paths (go/ssa)", "DESIGN.md §4 C12")
+claim("C13", "checkSameOrigin's result is the constant true only for an absent Origin and otherwise exactly equalASCIIFold(url.Parse(origin[0]).Host, r.Host) with the parse error refused; Upgrade falls back to it iff CheckOrigin is nil and answers 403; "
+      "equalASCIIFold calls no Unicode-aware function and its extracted per-rune decision is evaluated over a finite rune domain (every rune < U+0180/U+0300 plus the Unicode runes that fold into ASCII) against A-Z-only folding. net/url's host extraction is trusted.",
+      NOTE, "path enumeration + finite-domain evaluation of the extracted rune comparison (go/ssa)", "DESIGN.md §4 C13")
+
 REASON_NOT_BUILT = "rules for this property are not built yet in this revision (see DESIGN.md §4 for the planned static rules); nothing is claimed"
 
 def main():
